@@ -21,7 +21,7 @@ RULE = ('source port trees to depth 3 over names {a, ab, abc, b, x} (so names ar
         'selects a strict subset')
 ASSUMPTIONS = ['an empty include list is treated by the code as "no filter" and is outside the quantifier', 'reference model written from the property statement']
 REQUIRED = ['exposes', 'include_cases', 'exclude_cases', 'prefix_sibling_cases', 'nested_rule_cases', 'attr_checks', 'mutation_probes', 'both_rejected',
-            'namespace_option_cases', 'preexisting_kept']
+            'namespace_option_cases', 'preexisting_kept', 'options_reused']
 BOUNDS = {'quick': '40 trees x all single rules and pairs', 'thorough': '600 trees, rule sets up to 3'}
 NAMES = ['a', 'ab', 'abc', 'b', 'x']
 
@@ -246,7 +246,7 @@ def run_case(case):
     pre_desc = describe(droot)
     expose = dest.expose_inputs if kind == 'in' else dest.expose_outputs
     obs = {'exposes': 1, 'include_cases': 0, 'exclude_cases': 0, 'prefix_sibling_cases': 0, 'nested_rule_cases': 0, 'attr_checks': 0,
-           'mutation_probes': 0, 'both_rejected': 0, 'namespace_option_cases': 0, 'preexisting_kept': 0}
+           'mutation_probes': 0, 'both_rejected': 0, 'namespace_option_cases': 0, 'preexisting_kept': 0, 'options_reused': 0}
     viol = []
     mode, rules = case['mode'], case['rules']
     shape = '%s:%s' % (mode, kind)
@@ -269,6 +269,10 @@ def run_case(case):
         viol.append(V('expose-raised', 'expose-raised:%s:%s' % (type(exc).__name__, shape), 'expose raised %r for %s' % (exc, case)))
         return {'viol': viol, 'obs': obs, 'key': case, 'nontrivial': True}
     obs['include_cases' if mode == 'include' else 'exclude_cases'] = 1
+    if opts and kwargs['namespace_options'] != opts:
+        # the caller's options dictionary must survive the call (it may be used for the next expose)
+        viol.append(V('options-consumed', 'options-consumed', 'the namespace_options dictionary passed by the caller was changed by the call: %r, was %r' % (
+            kwargs['namespace_options'], case['options'])))
     if any('.' in r for r in rules):
         obs['nested_rule_cases'] = 1
     allp = paths(case['tree'])
@@ -317,6 +321,25 @@ def run_case(case):
             viol.append(V('namespace-attr', 'namespace-attr:%s' % k, 'target namespace %s=%r, expected %r (source %r, options %r)' % (
                 k, got_top[k], e, _ns_attrs(src_root)[k], case['options'])))
             break
+    # the same keyword arguments used for a second expose (into another namespace) give the same result
+    if opts:
+        kwargs2 = dict(kwargs, namespace='second_use')
+        try:
+            expose(src_cls, **kwargs2)
+            second = droot.get_port('second_use')
+            obs['options_reused'] = 1
+            got2 = _ns_attrs(second)
+            for k in ('required', 'valid_type', 'help', 'validator', 'dynamic', 'populate_defaults', 'default'):
+                if got2[k] != got_top[k]:
+                    viol.append(V('reuse-differs', 'reuse-differs:%s' % k, 'the second expose with the same arguments gave namespace %s=%r, the first %r (options %r)' % (
+                        k, got2[k], got_top[k], case['options'])))
+                    break
+            if _names(describe(second)) != real_names - (pre_names if not case['target'] else set()) and case['target']:
+                viol.append(V('reuse-differs', 'reuse-differs:ports', 'the second expose with the same arguments copied %s, the first %s' % (
+                    sorted(_names(describe(second))), sorted(real_names))))
+            del droot['second_use']
+        except Exception as exc:  # noqa: BLE001
+            viol.append(V('reuse-raised', 'reuse-raised:%s' % type(exc).__name__, 'second expose with the same arguments raised %r' % exc))
     # other destination ports stay in place
     if case['pre']:
         now = describe(droot)
